@@ -216,7 +216,7 @@ def _check_positions(text, mode="lossless"):
 def op_search(task):
     rnd = random.Random(task.get("seed", 0))
     alphabet = task.get("alphabet", ["a", "1", " ", "\t", "\n", "\\\n", "??/\n", "\"", "'", "/*", "*/", "//", "??=", "<%",
-                                     ";", "+", ".", "=", "\\", "_", "if"])
+                                     ";", "+", ".", "=", "\\", "_", "if", "*", "\r", "\x0c"])
     excs = {}
     maxlen = task.get("maxlen", 4)
     cases, viol, skipped = 0, [], 0
